@@ -71,9 +71,9 @@ def _models(tier, wd):
               "INVARIANTS AtDone AtRaise KeysKept StackDistinct StackBounded\nPROPERTY Terminates\n" % ("FALSE" if q else "TRUE")),
               "all maps over {a,b,c} with %d candidate values each; liveness: Terminates" % (11 if q else 16)))
     m.append(("Table", "TableMC", _write(os.path.join(wd, "tabm.cfg"),
-              "SPECIFICATION Spec\nCONSTANTS\n  MaxCol = 2\n  MaxRow = %d\n  CellVals <- McCells\n  NameVals <- McNames\n  Seps <- McSeps\n"
-              "INVARIANTS Shape RoundTripInv ReadBack\nPROPERTY RaiseKeeps\nCHECK_DEADLOCK FALSE\n" % (2 if q else 3)),
-              "MaxCol=2 MaxRow=%d cells {a,'b c'} names {x,y,z} seps {',',tab}" % (2 if q else 3)))
+              "SPECIFICATION Spec\nCONSTANTS\n  MaxCol = 2\n  MaxRow = 2\n  CellVals <- McCells\n  NameVals <- McNames\n  Seps <- McSeps\n"
+              "CONSTRAINT Bounded\nINVARIANTS Shape RoundTripInv ReadBackInv QueriesPure\nPROPERTY RaiseKeeps\nCHECK_DEADLOCK FALSE\n"),
+              "every public member of DataTable as an action; tables up to 2x2, cells {a,'b c'}, names {x,y,z}, seps {',',tab}, read with header on/off and rowNames -1..2"))
     return m
 
 
@@ -112,6 +112,8 @@ def _corrupt(lines, rnd):
             ev["args"][0][1] = ev["args"][0][1] + [122]; changed = True
         elif e == "VarResolve" and ev.get("r") == "ok" and ev.get("res"):
             ev["res"][0][1] = ev["res"][0][1] + [120]; changed = True
+        elif e == "Tab" and ev.get("r") == "ok":
+            ev["s"]["nrow"] += 1; changed = True
         elif e == "TabWriteRead" and ev.get("r") == "ok" and ev["back"]["cells"] and ev["back"]["cells"][0]:
             ev["back"]["cells"][0][0] = ev["back"]["cells"][0][0] + [122]; changed = True
         elif e == "DistRT" and ev.get("cats2"):
@@ -189,7 +191,7 @@ def run(tier, seed):
 
     def one_model(m):
         name, module, cfg, consts = m
-        return m, vc.tlc(SPEC, module, cfg, workers=4, coverage=not name.endswith("Lemmas"), timeout=3000, heap="6g")
+        return m, vc.tlc(SPEC, module, cfg, workers=4, coverage=not (name.endswith("Lemmas") or name == "Table"), timeout=3000, heap="5g")
 
     with ThreadPoolExecutor(max_workers=4) as ex:
         results = list(ex.map(one_model, models))
